@@ -7,8 +7,8 @@ What a contract on xgcm can say, and what is proved here on the real code:
       after moving core dims last: boundary width}, boundary='none', trim=False and the unpadded chunks
   (c) _check_if_length_would_change raises NotImplementedError iff an inner / outer position occurs or there is more
       than one output - "refused rather than answered differently"
-  (d) dispatch: dask='parallelized' for lazy data, map_overlap (dask='allowed') exactly when the operated dimension is
-      chunked, never for cumsum
+  (d) dispatch (which dask mode / whether map_overlap is used) is recorded as coverage only - it is a mechanism, not part
+      of the property; acceptance + value clauses below are what must hold
   (e) LAZINESS as an effect contract: dask-backed model arrays trap .values / .compute() / .load(); no public operation
       evaluates eagerly on any path; and (f) ACCEPTANCE: lazy scalar and vector inputs are accepted wherever in-memory
       inputs are, with the same dims / sizes / values (under the assumed end-to-end dask contracts)
@@ -355,10 +355,9 @@ def run_lazy(s):
             for d in e.dims:
                 oblige(f"same-size:{d}", zint(e.sizes[d]) == zint(l.sizes[d]))
             oblige("same-values-as-in-memory(under the assumed dask contracts)", z3.simplify(e.elem(q)).eq(z3.simplify(l.elem(q))) or symx.ctx().check_valid(e.elem(q) == l.elem(q))[0] == "proved")
-        # dispatch clause
-        used = len(rec.calls)
-        should = chunking != "non-core" and op in ("diff", "interp", "min", "max", "vector-simple")
-        oblige("map_overlap-used-iff-the-operated-dimension-is-chunked(never for cumsum)", (used > 0) == should, detail=f"{used} map_overlap calls")
+        # dispatch: informational only (how the result is obtained is not part of the property; when map_overlap IS used
+        # its arguments are checked by the `map_overlap;...` structures)
+        covers["map_overlap-used" if rec.calls else "map_overlap-not-used"] = 1
     with util.patched(*util.std_patches(mods)):
         rep = symx.explore(body, s["sid"])
     return pack(s, rep, f"lazy:{op}", covers)
